@@ -223,12 +223,106 @@ fn step(h: &mut Handle, hid_: usize, st: &Value) -> Map<String, Value> {
                 }
             }
         }
+        "readall" => {
+            // read to end-of-file: the result class, and length and CRC of whatever was delivered
+            m.insert("ev".into(), json!("CReadAll"));
+            match h.file.as_mut() {
+                None => {
+                    m.insert("r".into(), json!("noentry"));
+                }
+                Some(f) => {
+                    let mut v = vec![];
+                    let mut buf = [0u8; 997];
+                    let mut r = "ok";
+                    loop {
+                        match f.read(&mut buf) {
+                            Ok(0) => break,
+                            Ok(n) => v.extend_from_slice(&buf[..n]),
+                            Err(_) => {
+                                r = "err";
+                                break;
+                            }
+                        }
+                    }
+                    m.insert("r".into(), json!(r));
+                    m.insert("got".into(), json!(v.len()));
+                    m.insert("crc".into(), json!(hex32(crc32(&v))));
+                }
+            }
+        }
         _ => {
             m.insert("ev".into(), json!("CClose"));
             h.file = None;
         }
     }
     m
+}
+
+/// what a step let its handle observe, as one comparable string
+fn sig_of(m: &Map<String, Value>) -> String {
+    let g = |k: &str| m.get(k).map(|v| v.to_string()).unwrap_or_default();
+    format!("{}|{}|{}|{}|{}|{}|{}", g("ev"), g("i"), g("r"), g("got"), g("crc"), g("dstart"), g("usize"))
+}
+
+/// "every handle observes exactly what it would observe if used alone", differentially and for ANY archive (damaged entries,
+/// wrong passwords, undecodable methods included): the prescribed interleaving runs on clones of one archive, then each
+/// handle's own steps run on an archive opened afresh from the same bytes; one event per handle carries both observation lists
+fn differential(sc: &Value, bytes: &[u8], out: &mut Vec<Value>, push: &mut dyn FnMut(&mut Vec<Value>, Map<String, Value>)) {
+    let nh = sc["handles"].as_u64().unwrap_or(2) as usize;
+    let steps = sc["steps"].as_array().cloned().unwrap_or_default();
+    let mk = || ZipArchive::new(Yielding { data: Arc::new(bytes.to_vec()), pos: 0, rng: 1, every: 0, ctl: Ctl::new(), id: 0, clone_pos: 0 });
+    let r = catch_unwind(AssertUnwindSafe(|| -> Option<Vec<(Vec<String>, Vec<String>)>> {
+        let base = mk().ok()?;
+        let mut hs: Vec<Handle> = (0..nh).map(|_| Handle { ar: Box::leak(Box::new(base.clone())), file: None }).collect();
+        let mut shared: Vec<Vec<String>> = vec![vec![]; nh];
+        for st in &steps {
+            let h = st["h"].as_u64().unwrap_or(0) as usize % nh;
+            let e = step(&mut hs[h], h, st);
+            shared[h].push(sig_of(&e));
+        }
+        for h in hs.iter_mut() {
+            h.file = None;
+        }
+        let mut res = vec![];
+        for h in 0..nh {
+            let mut one = Handle { ar: Box::leak(Box::new(mk().ok()?)), file: None };
+            let mut alone = vec![];
+            for st in steps.iter().filter(|st| st["h"].as_u64().unwrap_or(0) as usize % nh == h) {
+                alone.push(sig_of(&step(&mut one, h, st)));
+            }
+            one.file = None;
+            res.push((shared[h].clone(), alone));
+        }
+        Some(res)
+    }));
+    match r {
+        Ok(Some(res)) => {
+            for (h, (a, b)) in res.into_iter().enumerate() {
+                let mut m = Map::new();
+                m.insert("ev".into(), json!("CAlone"));
+                m.insert("h".into(), json!(h + 1));
+                m.insert("r".into(), json!("ok"));
+                m.insert("shared".into(), json!(a));
+                m.insert("alone".into(), json!(b));
+                push(out, m);
+            }
+        }
+        Ok(None) => {
+            let mut m = Map::new();
+            m.insert("ev".into(), json!("CAlone"));
+            m.insert("h".into(), json!(0));
+            m.insert("r".into(), json!("noarchive"));
+            m.insert("shared".into(), json!([]));
+            m.insert("alone".into(), json!([]));
+            push(out, m);
+        }
+        Err(p) => {
+            let mut m = Map::new();
+            m.insert("ev".into(), json!("CPanic"));
+            m.insert("msg".into(), json!(panic_msg(&p)));
+            push(out, m);
+        }
+    }
 }
 
 
@@ -291,6 +385,10 @@ pub fn run(sc: &Value) -> Vec<Value> {
     let mut m = Map::new();
     m.insert("ev".into(), json!("Reset"));
     push(&mut out, m);
+    if sc.get("differential").and_then(|x| x.as_bool()).unwrap_or(false) {
+        differential(sc, &bytes, &mut out, &mut push);
+        return out;
+    }
     let l = lex(&Mem(&bytes), &LexOpts::default());
     let nh = sc["handles"].as_u64().unwrap_or(2) as usize;
     let every = sc.get("yield_every").and_then(|x| x.as_u64()).unwrap_or(0);
